@@ -269,6 +269,21 @@ def _mk_shapes():
         self.a, self.b = a, b
     return WithSlots
 
+  def cls_new_over_mixin():
+    class KwMixin:
+
+      def __init__(self, *args, **kwargs):        # a cooperative base that swallows anything
+        pass
+
+    class NewOverMixin(KwMixin):
+      """doc NewOverMixin"""
+
+      def __new__(cls, a=1, b=2):           # the class's own construction signature is closed
+        self = super().__new__(cls)
+        self.a, self.b = a, b
+        return self
+    return NewOverMixin
+
   def cls_nt():
     return collections.namedtuple('NT', ['a', 'b'], defaults=(1, 2))
 
@@ -346,11 +361,58 @@ def _mk_shapes():
       'class-metaclass': ('class', cls_meta),
       'class-slots': ('class', cls_slots),
       'class-namedtuple': ('class', cls_nt),
+      'class-new-over-kwargs-mixin': ('class', cls_new_over_mixin),
       'class-abstract-base': ('class', cls_abc),
   }
 
 
 SHAPES = _mk_shapes()
+TAKES_ANY_NAME = ('varargs-kwonly-function',)        # shapes whose construction signature has **kwargs
+
+
+def unknown_parameter_case(shape, api):
+  """Registers a fresh object of `shape` and tries to bind a parameter its signature does not have, through four
+  binding paths.  Returns a list of (path, got) that were not rejected with ValueError (or changed the configuration)."""
+  gin = core.import_gin()
+  from gin import config
+  kind, factory = SHAPES[shape]
+  obj = factory()
+  _COUNTER[0] += 1
+  module, name = 'gvu%d' % _COUNTER[0], 'probe'
+  before = dict(config._REGISTRY.items())
+  inv_before = dict(config._INVERSE_REGISTRY)
+  bad = []
+  try:
+    gin.clear_config()
+    if api == 'external':
+      gin.external_configurable(obj, name=name, module=module)
+    else:
+      gin.register(name, module=module)(obj)
+    sel = module + '.' + name
+    paths = {
+        'string': lambda: gin.bind_parameter(sel + '.no_such_parameter', 1),
+        'tuple': lambda: gin.bind_parameter(('sc', sel, 'no_such_parameter'), 1),
+        'text': lambda: gin.parse_config(sel + '.no_such_parameter = 1'),
+        'block': lambda: gin.parse_config('sc/' + sel + ':\n  no_such_parameter = 1\n'),
+    }
+    for how, fn in paths.items():
+      try:
+        fn()
+        got = 'accepted'
+      except ValueError:
+        got = 'ValueError'
+      except Exception as e:  # pylint: disable=broad-except
+        got = type(e).__name__
+      if got != 'ValueError' or config._CONFIG:
+        bad.append((how, got))
+        gin.clear_config()
+  finally:
+    gin.clear_config()
+    for s2 in [k for k, _ in list(config._REGISTRY.items()) if k not in before]:
+      config._REGISTRY.pop(s2)
+    for k in [k for k in list(config._INVERSE_REGISTRY) if k not in inv_before]:
+      del config._INVERSE_REGISTRY[k]
+  return bad
 PICKLE_MODULE = 'gvreg_pickle_shapes'
 
 
